@@ -466,22 +466,47 @@ on_hs(void *arg, int dir, int type, const unsigned char *body, size_t len)
 	}
 }
 
+typedef struct {
+	int done, closed, err, curve, has_proto, xchains, xcerts, xends, xverdict;
+	unsigned ver, suite;
+	char proto[64];
+	unsigned char name[260]; size_t name_len;
+} ep_obs;
+
 static void
-js_endpoint(FILE *f, const char *name, tp_ep *ep, int reneg)
+observe(tp_ep *ep, ep_obs *o)
 {
 	br_ssl_session_parameters sp;
 	const char *proto = br_ssl_engine_get_selected_protocol(ep->eng);
 	const char *sn = br_ssl_engine_get_server_name(ep->eng);
-	int err = br_ssl_engine_last_error(ep->eng);
+	memset(o, 0, sizeof *o);
+	o->err = br_ssl_engine_last_error(ep->eng);
+	o->done = tp_ep_ready(ep) && o->err == 0;
+	o->closed = tp_ep_closed(ep);
 	br_ssl_engine_get_session_parameters(ep->eng, &sp);
+	o->ver = br_ssl_engine_get_version(ep->eng);
+	o->suite = sp.cipher_suite;
+	o->curve = br_ssl_engine_get_ecdhe_curve(ep->eng);
+	o->has_proto = proto != NULL;
+	if (proto) snprintf(o->proto, sizeof o->proto, "%s", proto);
+	o->name_len = strlen(sn);
+	if (o->name_len > sizeof o->name) o->name_len = sizeof o->name;
+	memcpy(o->name, sn, o->name_len);
+	o->xchains = ep->xw ? ep->xw->n_start_chain : 0;
+	o->xcerts = ep->xw ? ep->xw->n_start_cert : 0;
+	o->xends = ep->xw ? ep->xw->n_end_chain : 0;
+	o->xverdict = ep->xw && ep->xw->verdict_seen ? (int)ep->xw->last_verdict : -1;
+}
+
+static void
+js_endpoint(FILE *f, const char *name, const ep_obs *o, int reneg)
+{
 	fprintf(f, "\"%s\":{\"done\":%d,\"closed\":%d,\"err\":%d,\"ver\":%u,\"suite\":%u,\"curve\":%d,",
-		name, tp_ep_ready(ep) && err == 0, tp_ep_closed(ep), err,
-		br_ssl_engine_get_version(ep->eng), sp.cipher_suite, br_ssl_engine_get_ecdhe_curve(ep->eng));
-	if (proto) fprintf(f, "\"proto\":\"%s\",", proto); else fputs("\"proto\":null,", f);
-	js_hex(f, "name", (const unsigned char *)sn, strlen(sn), 1);
+		name, o->done, o->closed, o->err, o->ver, o->suite, o->curve);
+	if (o->has_proto) fprintf(f, "\"proto\":\"%s\",", o->proto); else fputs("\"proto\":null,", f);
+	js_hex(f, "name", o->name, o->name_len, 1);
 	fprintf(f, ",\"reneg\":%d,\"xchains\":%d,\"xcerts\":%d,\"xends\":%d,\"xverdict\":%d}",
-		reneg, ep->xw ? ep->xw->n_start_chain : 0, ep->xw ? ep->xw->n_start_cert : 0,
-		ep->xw ? ep->xw->n_end_chain : 0, ep->xw && ep->xw->verdict_seen ? (int)ep->xw->last_verdict : -1);
+		reneg, o->xchains, o->xcerts, o->xends, o->xverdict);
 }
 
 static void
@@ -549,28 +574,16 @@ run_pair(long long seed, long idx, int kind, side *C, side *S, vf_rng *r)
 	js_side(LOG, "C", C, 0); fputc(',', LOG);
 	js_side(LOG, "S", S, 1); fputc(',', LOG);
 	js_wire(LOG, &pm.m.rm);
-	/* renegotiation capability: last, since a successful call starts a new handshake */
+	/* renegotiation capability is measured last: a successful call starts a new handshake */
 	{
-		/* the endpoints' views are written before the calls; reneg is measured on copies of the state flags only */
-		br_ssl_session_parameters dummy; (void)dummy;
-	}
-	/* take everything else first */
-	{
-		char *bufc = NULL, *bufs = NULL; size_t lc = 0, ls = 0;
-		FILE *fc = open_memstream(&bufc, &lc), *fs = open_memstream(&bufs, &ls);
-		js_endpoint(fc, "oc", &p.c, 9999);
-		js_endpoint(fs, "os", &p.s, 9999);
-		fclose(fc); fclose(fs);
+		ep_obs oc, os;
+		observe(&p.c, &oc);
+		observe(&p.s, &os);
 		if (rc) renc = tp_act_reneg(&p.c);
 		if (rs) rens = tp_act_reneg(&p.s);
-		/* patch the placeholder */
-		{
-			char tmp[16], *q;
-			snprintf(tmp, sizeof tmp, "%4d", renc); q = strstr(bufc, "9999"); if (q) memcpy(q, tmp, 4);
-			snprintf(tmp, sizeof tmp, "%4d", rens); q = strstr(bufs, "9999"); if (q) memcpy(q, tmp, 4);
-		}
-		fprintf(LOG, ",%s,%s}\n", bufc, bufs);
-		free(bufc); free(bufs);
+		fputc(',', LOG); js_endpoint(LOG, "oc", &oc, renc);
+		fputc(',', LOG); js_endpoint(LOG, "os", &os, rens);
+		fputs("}\n", LOG);
 	}
 	tm_verdict(&pm.m, 0, 0, 0);
 	vf_distinct("config", "%s/c%04x-%04x/s%04x-%04x/k%d.u%x/f%x.%x/h%02x.%02x/cv%x.%x/a%zu.%zu/r%d%d",
@@ -794,7 +807,11 @@ run_scripted(long long seed, long idx, side *S, vf_rng *r)
 	fprintf(LOG, "{\"i\":%ld,\"seed\":%lld,\"kind\":\"scripted\",\"reset\":[1,%d],\"rv\":%u,", idx, seed, rs, rv);
 	js_side(LOG, "S", S, 1); fputc(',', LOG);
 	js_wire(LOG, &mon.rm); fputc(',', LOG);
-	js_endpoint(LOG, "os", &srv, -1);
+	{
+		ep_obs os;
+		observe(&srv, &os);
+		js_endpoint(LOG, "os", &os, -1);
+	}
 	fputs("}\n", LOG);
 	vf_stat("scripted_hellos", 1);
 	vf_stat(mon.rm.n_sh > 0 ? "scripted_answered_server_hello" : "scripted_refused", 1);
